@@ -16,6 +16,12 @@ CHECKS = {
  "C11": ("exploration", "3.C11", "generated overlay trees (chains, forks, ancestors dropped/committed/rejected while descendants live): sessions on a chain read/prove/root as 'chain committed'; committing in order equals committing the batches directly incl. rollback history; incomplete chains and out-of-order commits must be refused", "abandoned forks (base invalidated by a competing commit) are committed or dropped but not read through (outside the API contract)"),
  "C12": ("exploration", "3.C12", "competing changesets (finished sessions and overlays) prepared on one base and committed in seeded orders and flavours; every rejected attempt and every non-blocking attempt made while a session is alive must leave root, sync_seqn, all values and what rollback(1..retained) restores exactly as in the model", "rollback history is probed on copies of the directory"),
  "C13": ("exploration", "3.C13", "eight runs share one history (keys, batches, steps) and differ in everything the results must not depend on (workers 1..64, io workers, caches, warm-up, warm/preserve hints, buckets/seed, prepopulation, hasher, scheduler kind and seed); every root/value/proof/witness verdict must equal the model, hence each other", "all runs are compared with the same reference, which implies pairwise equality per hasher"),
+ "C03": ("fault_enumeration", "3.C03", "a dry run lists the mutating I/O events of a target operation (open of an existing store, session commit, overlay commit, rollback) after a state-building prefix; a process-crash image (sparse copy of the directory; torn multi-page appends) is forked before each chosen event (quick: ~14 incl. all boundaries next to meta/WAL/HT/segment events; thorough: every boundary up to 400), reopened with hooks on and must show exactly the old or the new state as a whole (root, every value, sync_seqn, proofs), accept a further commit per the model; recovery of an image forks nested images (depth <= 3)", "page cache survives a process crash; creation of a store is not covered (DESIGN 3a)"),
+ "C04": ("fault_enumeration", "3.C04", "same crash points, but power-loss images: SimDisk keeps a durable shadow (only what a completed fsync of the file / directory covered) and builds images = shadow + a chosen subset of unsynced operations (all lost, exactly one lost, exactly one kept, random subsets; appends cut at page-aligned prefixes; directory operations as a prefix); images taken right after an operation returned must show the new state; images taken right after recovery returned must still be old-or-new; plus ordering rules r1-r3 over every sync's and every recovery's I/O trace", "fault model as stated in the property: in-place page writes lost independently, size-changing and directory operations survive as a prefix"),
+ "C14": ("fault_enumeration", "3.C14", "for chosen (quick) or all (thorough, <=150) mutating events of a target commit / overlay commit / rollback the hook answers with EIO / ENOSPC once or persistently: the call must return Err (never Ok, never a hang: deadlock detector and step cap), is_poisoned() must be true, a further commit must be refused, and after drop + reopen without faults the state is exactly old or new; short and interrupted page writes must be absorbed; bucket exhaustion on 64..1000-bucket tables has the same obligations", "read failures and failures during open/create are not injected (DESIGN 3a); background workers of the failed sync are allowed to finish before the handle is dropped"),
+ "C16": ("exploration", "3.C16", "an independent decoder of meta/bbn/ln/ht/rollback files (written from the documented layouts, no shared code) runs after every step of seeded histories: separators strictly ordered within and across branch pages, leaves partition the key space, every model key in exactly one leaf with the model's bytes (overflow chains complete, hash right), no page used twice; every full bucket holds a page whose label is reachable by its probe sequence exactly once; every reachable node of every stored page equals the reference trie at that position; a page with content is stored xor marked elided in its stored parent; no stale pages", "page labels are accepted in the form the tree writes them (id << 6)"),
+ "C17": ("exploration", "3.C17", "before every sync the decoder computes what the durable image references (leaf, overflow, branch and free-list pages, the hash table, live rollback segments); every write / set_len / unlink event of the sync that starts before the meta fsync completed must miss that set, under all worker interleavings the scheduler picks", "events are observed at the hook sites of the guarded build"),
+ "C19": ("exploration", "3.C19", "page accounting on the decoder's output after every step: used + free-listed + free-list pages = [1, bump) for ln and bbn, nothing both free and used; reported hash-table occupancy = full buckets = stored pages (0 when empty); fill / overwrite / empty cycles with values flipping between in-leaf and overflow form", "frontier growth over many cycles is additionally bounded in the thorough tier"),
 }
 
 NA = [
@@ -23,13 +29,7 @@ NA = [
  ("C18", "totality of pure verifier functions over arbitrary inputs: nothing for a simulator to schedule or fault (DESIGN §4)"),
 ]
 PENDING = {
- "C03": "not claimed yet: the check for this property is still being built (see DESIGN.md §3); it is applicable to this technique",
- "C04": "not claimed yet: the check for this property is still being built (see DESIGN.md §3); it is applicable to this technique",
- "C14": "not claimed yet: the check for this property is still being built (see DESIGN.md §3); it is applicable to this technique",
  "C15": "not claimed yet: the check for this property is still being built (see DESIGN.md §3); it is applicable to this technique",
- "C16": "not claimed yet: the check for this property is still being built (see DESIGN.md §3); it is applicable to this technique",
- "C17": "not claimed yet: the check for this property is still being built (see DESIGN.md §3); it is applicable to this technique",
- "C19": "not claimed yet: the check for this property is still being built (see DESIGN.md §3); it is applicable to this technique",
  "C20": "not claimed yet: the check for this property is still being built (see DESIGN.md §3); it is applicable to this technique",
 }
 
